@@ -107,7 +107,7 @@ func init() {
 			// functions git-lfs uses look for a separator and otherwise return the rest)
 			for {
 				res := call(i, fr, 0, s.splitFn, []value{i.newBytes(s.rest), true}).(tuple)
-				adv := i.concreteInt(res[0], "split function advance")
+				adv := res[0]
 				if e, ok := res[2].(iface); ok && e.t != nil {
 					s.err = e
 					s.tok = ""
@@ -120,7 +120,7 @@ func init() {
 					s.tok = i.compact(i.bytesOf(tok))
 					return true
 				}
-				if adv == 0 || !i.branch(p.mkIntCmp(">", p.mkLen(s.rest), int64(0))) {
+				if !i.branch(p.mkIntCmp(">", adv, int64(0))) || !i.branch(p.mkIntCmp(">", p.mkLen(s.rest), int64(0))) {
 					s.tok = ""
 					return false
 				}
